@@ -12,7 +12,7 @@ from . import engine, tlc
 CLAUSE_PROPERTY = {
     "C01_Exact": "C01", "C01_OnlyAdded": "C01",
     "C03_Notes": "C03", "C03_Blame": "C03",
-    "C05_WellFormed": "C05",
+    "C05_WellFormed": "C05", "C02_Carried": "C02", "C14_Stutter": "C14",
 }
 
 
